@@ -17,6 +17,7 @@ struct Observed {
 	uint64_t content = 0;
 	std::vector<uint32_t> positions;
 	std::set<std::string> scan;        // scan:* tags as a set (add == copy normalised)
+	std::string counts;                // summary:error_file / error_io / error_data
 	uint64_t data = 0;
 };
 
@@ -26,6 +27,7 @@ Observed observe(Exec& x, const CmdResult& r)
 	o.exit_code = r.exit_code;
 	o.term_sig = r.term_sig;
 	for (auto& t : parse_tags(r.log)) {
+		if (t.f.size() >= 3 && t.f[0] == "summary" && starts_with(t.f[1], "error_")) o.counts += t.f[1] + "=" + t.f[2] + " ";
 		if (t.f.size() >= 4 && t.f[0] == "error") o.errors.insert("error:" + t.f[1] + ":" + t.f[2] + ":" + t.f[3]);
 		if (t.f.size() >= 3 && t.f[0] == "parity_error") o.errors.insert("parity_error:" + t.f[1] + ":" + t.f[2]);
 		if (t.f.size() >= 4 && t.f[0] == "scan") {
@@ -134,6 +136,7 @@ static void op_c13_diff(Exec& x, const Json& op, int)
 		}
 		Observed got = observe(x, rv);
 		if (got.exit_code != want.exit_code) x.violation("C13", "exit-status-differs", when + strf(": exit %d, single-threaded %d", got.exit_code, want.exit_code), focus);
+		if (got.counts != want.counts) x.violation("C13", "error-counts-differ", when + ": " + got.counts + "vs single-threaded " + want.counts, focus);
 		if (got.errors != want.errors) {
 			std::string d;
 			for (auto& e : got.errors) if (!want.errors.count(e)) d += "+" + e + " ";
@@ -218,6 +221,17 @@ static RunPlan gen_sched_family(uint64_t seed, int tier)
 		// a read error addressed by "n-th read of the disk" is schedule dependent with read-ahead only in *which* request
 		// is n-th if several files are open; reads of one disk are issued by one thread in stripe order, so it is stable
 		s.faults.push_back(f);
+	} else if (fk == 2 && s.cmd == "sync") {
+		// EIO on the n-th write of one parity file (writes of one parity are issued by one thread in stripe order)
+		Fault f;
+		f.f.kind = FK_ERRNO;
+		f.f.opmask = OPC_PWRITE;
+		snprintf(f.f.path, sizeof(f.f.path), "p%ds0/parity", (int)rng.below(p.cfg.np));
+		f.f.nth = (int)rng.below(5);
+		f.f.err = EIO;
+		f.f.count = 1;
+		s.faults.push_back(f);
+		if (rng.chance(1, 3)) { s.opts.push_back("-L"); s.opts.push_back(strf("%d", (int)rng.range(2, 6))); }
 	} else if (fk == 1) {
 		s.sig_at_io = (unsigned)rng.range(1, 30);
 		s.sig_no = rng.chance(1, 2) ? 2 : 15;
